@@ -7,6 +7,7 @@ import (
 	"reflect"
 	"runtime"
 	"strings"
+	"time"
 
 	"github.com/tormoder/fit"
 
@@ -261,6 +262,7 @@ func runC03(w *vx.W) {
 		mixLen = 4
 	}
 	mixFamily(w, mixLen)
+	mixLongRuns(w, []int{0, 2, 5, 6})
 	c10MixChains(w) // the same words as members of a chain: values and routing must not depend on an earlier member
 	alpha := c03Alphabet()
 	// the further file_id symbol is the known message 0 entry itself (first in list)
@@ -644,6 +646,24 @@ func runC03(w *vx.W) {
 // dumped, the *File is dropped, the garbage collector runs, further files of the same kind are decoded, the
 // collector runs again - and the first container must still dump the same (storage recycled behind the caller's
 // back, finalizers, pooled backing arrays).
+// settleGC: two collections, each followed by a wait until a finalizer registered just before it has run (finalizers
+// run one after the other on one goroutine, so the ones queued earlier have run by then). The wait is bounded; no
+// verdict depends on it — it only makes what a collection triggers visible before the next call.
+func settleGC() {
+	for i := 0; i < 2; i++ {
+		done := make(chan struct{})
+		x := new([64]byte)
+		runtime.SetFinalizer(x, func(*[64]byte) { close(done) })
+		x = nil
+		runtime.GC()
+		select {
+		case <-done:
+		case <-time.After(2 * time.Second):
+		}
+	}
+	runtime.GC()
+}
+
 func c03Retention(w *vx.W) {
 	if w.Shard != 0 {
 		return
@@ -669,12 +689,11 @@ func c03Retention(w *vx.W) {
 			}
 			ks = append(ks, k)
 			res.File = nil
-			runtime.GC()
-			runtime.GC()
+			settleGC()
 		}
 	}
 	for i := 0; i < 3; i++ {
-		runtime.GC()
+		settleGC()
 		safeDecode(bytes.NewReader(sBig.B))
 	}
 	for i, k := range ks {
